@@ -50,6 +50,33 @@ Module CborI.
     wf i /\ plain i /\ lib_supports D (tree_of O i) /\ (tdepth D (tree_of O i) < maxdepth D)%Z
     /\ (d + sdepth (tree_of O i) < maxdepth D)%Z.
 
+  (* the same parsers with the extended decode law (Wcbor_dec_enc): [norm_t] / [lib_supports_t] / [tdepth_t]
+     also admit times written in the RFC 3339 form (tag 0) wherever they occur *)
+  Definition Ft (O : eopts) (D : dopts) (d : Z) : fmt := {|
+    est := unit;
+    cfg := list N;
+    encf := fun i e => (enc O i, e);
+    decf := fun b => dec_naked D (fuel_for b) b;
+    skipf := fun b => capture b (skip D (fuel_for b) d b);
+    rawf := fun i _ => enc O i;
+    normf := norm_t O D;
+    rem := @length N |}.
+
+  Definition ok_t (O : eopts) (D : dopts) (d : Z) (i : item) (_ : unit) (_ : list N) : Prop :=
+    wf i /\ plain i /\ lib_supports_t D (tree_of O i) /\ (tdepth_t D (tree_of O i) < maxdepth D)%Z
+    /\ (d + sdepth (tree_of O i) < maxdepth D)%Z.
+
+  Lemma laws_ok_t : forall O D d, laws (Ft O D d) at_plain (ok_t O D d) 0.
+  Proof.
+    intros O D d. split.
+    - intros v e c tl (Hwf & Hpl & Hsup & Hdep & Hsd) Hat. red in Hat. subst c. cbn [encf Ft fst snd].
+      exists tl. repeat apply conj.
+      + cbn [decf Ft normf]. apply dec_enc_t_lemma; assumption.
+      + cbn [skipf Ft rawf]. rewrite (skip_enc_lemma O D v d tl Hwf Hpl Hsd). apply capture_app.
+      + reflexivity.
+    - intros e c tl H. exact (rem_plain e c tl H).
+  Qed.
+
   Lemma laws_ok : forall O D d, laws (F O D d) at_plain (ok O D d) 0.
   Proof.
     intros O D d. split.
